@@ -8,6 +8,8 @@ GROUPS.append(G("dbg_WriteCode", "harness/C04/h_as_writecode.c", "h_WriteCode", 
                 functions=["WriteCode"], object_bits=12, dfcc=False, defs=["-DSTRINGSIZE=64"]))
 GROUPS.append(G("book_BookKeeping", "harness/C19/h_asmsub.c", "h_BookKeeping", enforce=[], link=[], stubs=["stubs/gerr.c"], unwind=4, timeout=300,
                 dfcc=False, object_bits=12, functions=["BookKeeping", "ProgCounter"]))
+GROUPS.append(G("line_GenerateProcessor", "harness/C20/h_as_include.c", "h_GenerateProcessor", enforce=[], link=["asmdef.c", "strcomp.c"], stubs=["stubs/gerr.c"], unwind=8, timeout=600, dfcc=False,
+                object_bits=12, defs=["-DSTRINGSIZE=64"], functions=["GenerateProcessor"], note="the line number a MAP entry / listing line of a macro body carries is StartLine (+ body line): see C20"))
 TRUSTED_BASE = ["GetFileNum / AddAddressRange logging stubs", "stubs of h_as_writecode.c"]
 ASSUMPTIONS = []
 NOT_COVERED = ["MakeList (listing address column and word dump)", "PrintSymbolList / PrintDebSymbols / CodeSHARED (symbol values in listing, MAP and share file)", "BookKeeping (asmsub.c) argument passing", "Atmel/NoICE debug formats"]
